@@ -55,14 +55,14 @@ def c10(tier, seed, t0):
 def edits(prop, tier, seed, budget):
     from harness import edits as H
     res = R.run_pool(H.HNAME, H.chunks(tier, [prop]), budget, seed, tier,
-                     extra=dict(props=[prop], sample_rate=0.05 if tier == "quick" else 0.02, chunk_time=40 if tier == "quick" else 200,
+                     extra=dict(props=[prop], sample_rate=0.05 if tier == "quick" else 0.02, chunk_time=40 if tier == "quick" else 400,
                                 alarm=8.0 if tier == "quick" else 20.0))
     return R.merge(res), H
 
 
 EDIT_BOUNDS = dict(base_programs="quick: fn.c, ty.h; thorough: fn.c, gl.c, ty.h, pp.c (harness/edits.py BASE_SRC), each behind a valid 42 header",
                    edit_sites="every (quick: every second) token boundary after the header",
-                   inserted_lexeme="one lexeme of solver-chosen spelling, length 1..4 (quick) / 1..8 (thorough): any keyword, operator, bracket, "
+                   inserted_lexeme="one lexeme of solver-chosen spelling, length 1..4 (quick) / 1..6 (thorough): any keyword, operator, bracket, "
                                    "digraph/trigraph, identifier, numeric constant, string, char, // or /* */ comment, blank, tab, newline",
                    structural_edits="cut (with / without trailing newline), delete 1-2 tokens, swap adjacent tokens, duplicate a token",
                    outside="two or more simultaneous insertions; files longer than ~35 lines; non-ASCII")
@@ -75,7 +75,7 @@ def c05(tier, seed, t0):
     res = R.run_pool(HL.HNAME, HL.chunks(tier, N), 100 if tier == "quick" else 1500, seed, tier,
                      extra=dict(props=["C05"], sample_rate=0.05 if tier == "quick" else 0.02))
     agg1 = R.merge(res)
-    agg2, HE = edits("C05", tier, seed, 110 if tier == "quick" else 1800)
+    agg2, HE = edits("C05", tier, seed, 110 if tier == "quick" else 3000)
     agg = merge2(agg1, agg2)
     bounds = dict(tokenizer=dict(window_chars=N, alphabet="ASCII 0..127", start="symbolic line/column >= 1",
                                  claim="one get_next_token() step returns and raises nothing; induction L2"),
